@@ -60,7 +60,11 @@ func (r *registry) handleBlobStartUpload(ctx context.Context, resp http.Response
 	}
 	defer w.Close()
 
-	resp.Header().Set("Location", r.locationForUploadID(rreq.Repo, w.ID()))
+	loc, err := r.locationForUploadID(rreq.Repo, w.ID())
+	if err != nil {
+		return err
+	}
+	resp.Header().Set("Location", loc)
 	resp.Header().Set("Range", "0-0")
 	// TODO: reject chunks which don't follow this minimum length.
 	// If any reasonable clients are broken by this, we can always reconsider,
@@ -80,7 +84,11 @@ func (r *registry) handleBlobUploadInfo(ctx context.Context, resp http.ResponseW
 		return err
 	}
 	defer w.Close()
-	resp.Header().Set("Location", r.locationForUploadID(rreq.Repo, w.ID()))
+	loc, err := r.locationForUploadID(rreq.Repo, w.ID())
+	if err != nil {
+		return err
+	}
+	resp.Header().Set("Location", loc)
 	resp.Header().Set("Range", ocirequest.RangeString(0, w.Size()))
 	resp.WriteHeader(http.StatusNoContent)
 	return nil
@@ -106,7 +114,11 @@ func (r *registry) handleBlobUploadChunk(ctx context.Context, resp http.Response
 	if err := w.Close(); err != nil {
 		return fmt.Errorf("cannot close BlobWriter: %w", err)
 	}
-	resp.Header().Set("Location", r.locationForUploadID(rreq.Repo, w.ID()))
+	loc, err := r.locationForUploadID(rreq.Repo, w.ID())
+	if err != nil {
+		return err
+	}
+	resp.Header().Set("Location", loc)
 	resp.Header().Set("Range", ocirequest.RangeString(0, w.Size()))
 	resp.WriteHeader(http.StatusAccepted)
 	return nil
@@ -220,13 +232,18 @@ func subjectFromManifest(contentType string, data []byte) (*ociregistry.Descript
 	return m.Subject, nil
 }
 
-func (r *registry) locationForUploadID(repo string, uploadID string) string {
-	_, loc := (&ocirequest.Request{
+func (r *registry) locationForUploadID(repo string, uploadID string) (string, error) {
+	_, loc, err := (&ocirequest.Request{
 		Kind:     ocirequest.ReqBlobUploadInfo,
 		Repo:     repo,
 		UploadID: uploadID,
-	}).MustConstruct()
-	return loc
+	}).Construct()
+	if err != nil {
+		// The upload ID comes from the backend, which may
+		// return anything at all, so this isn't a reason to panic.
+		return "", fmt.Errorf("cannot make location for upload ID %q: %v", uploadID, err)
+	}
+	return loc, nil
 }
 
 func chunkRange(req *http.Request) (start, end int64, _ error) {
